@@ -195,4 +195,210 @@ Proof.
   split; nia.
 Qed.
 
-End_of_part_two_marker.
+
+Section Sound.
+Variable node_hash : hash -> hash -> hash.
+Notation NodeAt := (NodeAt node_hash).
+Notation mtree := (mtree node_hash).
+Notation hash_from_tile := (hash_from_tile node_hash).
+Notation hash_at := (hash_at node_hash).
+
+(* the invariant of an authenticated (tile, data) pair: every aligned group of entries
+   hashes to an authenticated node — in particular (j = 0) every entry *)
+Definition tile_auth (R : hash) (N : Z) (t : tile) (d : str) : Prop :=
+  1 <= tH t /\ 0 <= tL t /\ 0 <= tN t /\ 1 <= tW t <= 2 ^ tH t /\ len d = tW t * 32 /\
+  forall (j s : nat), Z.of_nat j <= tH t -> (Z.of_nat s + 1) * 2 ^ Z.of_nat j <= tW t ->
+    NodeAt R N (tL t * tH t + Z.of_nat j) (tN t * 2 ^ (tH t - Z.of_nat j) + Z.of_nat s) (mtree j (block d j s)).
+
+Lemma tile_auth_ok R N t d : tile_auth R N t d -> tile_ok node_hash R N t d.
+Proof.
+  intros [H1 [H2 [H3 [H4 [H5 H6]]]]]. unfold tile_ok. do 5 (split; [first [assumption|lia]|]).
+  intros i Hi. specialize (H6 O (Z.to_nat i) ltac:(lia)).
+  rewrite Z2Nat.id in H6 by lia. change (2 ^ Z.of_nat 0) with 1 in H6. specialize (H6 ltac:(lia)).
+  replace (tL t * tH t + Z.of_nat 0) with (tH t * tL t) in H6 by lia.
+  replace (tH t - Z.of_nat 0) with (tH t) in H6 by lia.
+  replace (entry d i) with (mtree 0 (block d 0 (Z.to_nat i))); [exact H6|].
+  cbn [TileSpec.mtree]. unfold block, entry. change (32 * 2 ^ 0)%nat with 32%nat. do 2 f_equal. lia.
+Qed.
+
+Lemma hash_from_tile_auth R N t d x hh :
+  tile_auth R N t d -> hash_from_tile t d x = TOk hh -> x < 2 ^ 63 ->
+  exists l o, split_stored_hash_index x = Ok (l, o) /\ NodeAt R N l o hh.
+Proof.
+  intros [H1 [H2 [H3 [H4 [H5 H6]]]]] Hh Hx.
+  destruct (hash_from_tile_spec _ _ _ _ _ Hh Hx)
+    as [l [o [j [n' [Hs [Hl [Ho [Hidx [HH [HL [HW [Hlen [HN [Hj [Hlj [Hn' [Hco Ehh]]]]]]]]]]]]]]]]].
+  exists l, o. split; [exact Hs|].
+  specialize (H6 j n' ltac:(lia) Hn').
+  pose proof (pow2_pos (Z.of_nat j) ltac:(lia)). pose proof (pow2_pos (tH t - Z.of_nat j) ltac:(lia)).
+  assert (E : 2 ^ tH t = 2 ^ (tH t - Z.of_nat j) * 2 ^ Z.of_nat j) by (apply pow2_split; lia).
+  assert (Eo : o = tN t * 2 ^ (tH t - Z.of_nat j) + Z.of_nat n') by (rewrite E in Hco; nia).
+  subst hh. rewrite Hlj, Eo. exact H6.
+Qed.
+
+(* ---------------------------------------------------------------- phase 1: the tree-hash tiles *)
+
+Section Phase1.
+Variables (h N : Z) (R : hash).
+Variables (bs : list (Z * Z)) (tiles1 ext2 : list tile) (data : list str) (sto : list nat) (hs : list hash).
+Variable ord1 : order.
+Let tiles := tiles1 ++ ext2.
+Let stx := sub_tree_indexes bs.
+Hypothesis HN : 0 <= N <= 2 ^ 62.
+Hypothesis HB : Blocks 0 N bs.
+Hypothesis Hfull : ord_full ord1 tiles1.
+Hypothesis Hsto : Forall2 (fun x j => exists t, stx_tile h N x t /\ nth_error tiles1 j = Some t) stx sto.
+Hypothesis Hcov : forall q, (q < length tiles1)%nat -> In q sto.
+Hypothesis Hlen : Forall2 (fun t d => len d = tW t * 32) tiles data.
+Hypothesis Hhs : Forall2 (fun jx hh => hash_at tiles data (fst jx) (snd jx) = TOk hh) (combine sto stx) hs.
+Hypothesis Hfold : fold_hashes node_hash hs = Some R.
+
+Definition block_fact (b : Z * Z) (q : nat) (hh : hash) : Prop :=
+  exists T d o (jb nb : nat),
+    nth_error tiles1 q = Some T /\ nth_error data q = Some d /\
+    0 <= fst b /\ 0 <= o /\ snd b = o * 2 ^ fst b /\
+    1 <= h /\ 0 <= tL T /\ 0 <= tN T /\
+    T = mkTile h (tL T) (tN T) (Z.min (2 ^ h) (N / 2 ^ (tL T * h) - tN T * 2 ^ h)) /\
+    fst b = tL T * h + Z.of_nat jb /\ Z.of_nat jb < h /\
+    (Z.of_nat nb + 1) * 2 ^ Z.of_nat jb <= tW T /\ 1 <= tW T /\
+    tN T * 2 ^ h + Z.of_nat nb * 2 ^ Z.of_nat jb = o * 2 ^ Z.of_nat jb /\
+    hh = mtree jb (block d jb nb) /\ NodeAt R N (fst b) o hh /\ len d = tW T * 32.
+
+Lemma lo_lt_hi : 0 < N.
+Proof.
+  destruct (Z.eq_dec N 0) as [E|]; [|lia]. exfalso.
+  rewrite E in HB. inversion HB; subst.
+  - destruct sto; [|inversion Hsto]. cbn in Hhs. inversion Hhs; subst. discriminate.
+  - pose proof (pow2_pos level ltac:(assumption)). lia.
+Qed.
+
+Lemma block_facts i b :
+  nth_error bs i = Some b ->
+  exists q hh, nth_error sto i = Some q /\ block_fact b q hh.
+Proof.
+  intros Hb. destruct b as [lv lo].
+  assert (Hin : In (lv, lo) bs) by (eapply nth_error_In; exact Hb).
+  destruct (Blocks_member _ _ _ _ _ HB Hin) as [Hlv [Hlo0 [Hlohi [c Hc]]]].
+  pose proof (pow2_pos lv Hlv) as Hplv.
+  assert (Hc0 : 0 <= c) by nia.
+  assert (Hshr : Z.shiftr lo lv = c) by (rewrite shr_div by lia; subst lo; apply Z.div_mul; lia).
+  set (x := stored_hash_index lv c).
+  assert (Hx : nth_error stx i = Some x).
+  { unfold stx, sub_tree_indexes. rewrite nth_error_map, Hb. cbn [option_map fst snd]. rewrite Hshr. reflexivity. }
+  destruct (no_overflow_index lv c Hlv Hc0 ltac:(nia)) as [[Hx0 Hx63] _]. fold x in Hx0, Hx63.
+  destruct (Forall2_nth _ _ _ _ _ Hsto Hx) as [q [Hq [T [[t0 [s0 [e0 [Htfi ET]]]] HT]]]].
+  destruct (Forall2_nth _ _ _ _ _ Hhs (nth_error_combine _ _ _ _ _ Hq Hx)) as [hh [Hhh Hat]].
+  cbn [fst snd] in Hat.
+  exists q, hh. split; [exact Hq|].
+  unfold TileReader.hash_at in Hat.
+  assert (HTt : nth_error tiles q = Some T).
+  { unfold tiles. rewrite nth_error_app1; [exact HT|]. apply nth_error_Some. congruence. }
+  rewrite HTt in Hat.
+  destruct (nth_error data q) as [d|] eqn:Hd; [|discriminate].
+  destruct (Forall2_nth _ _ _ _ _ Hlen HTt) as [d' [Hd' Hld]]. rewrite Hd in Hd'. injection Hd' as <-.
+  destruct (hash_from_tile_spec _ _ _ _ _ Hat Hx63)
+    as [l [o [jb [nb [Hs [Hl [Ho [Hidx [HH [HL [HW [Hlend [HNn [Hj [Hlj [Hn' [Hco Ehh]]]]]]]]]]]]]]]]].
+  unfold x in Hs. rewrite (split_index lv c Hlv Hc0 Hx63) in Hs. injection Hs as <- <-.
+  (* the shape of T *)
+  destruct (tile_for_index_spec _ _ _ _ _ Htfi ltac:(lia))
+    as [l2 [o2 [j2 [n2 [_ [_ [_ [_ [Hh1 [HH0 [HL0 [_ [_ [HN0 _]]]]]]]]]]]]]].
+  pose proof (tile_parent_spec t0 0 N ltac:(lia) ltac:(lia) HL0 HN0 ltac:(lia)) as Hps.
+  cbv zeta in Hps. rewrite HH0 in Hps. rewrite Z.mul_0_l in Hps. change (2 ^ 0) with 1 in Hps.
+  rewrite Z.div_1_r, Z.add_0_r in Hps. destruct Hps as [Hno Hyes].
+  assert (HTeq : T = mkTile h (tL t0) (tN t0) (Z.min (2 ^ h) (N / 2 ^ (tL t0 * h) - tN t0 * 2 ^ h))).
+  { destruct (Z_le_gt_dec (N / 2 ^ (tL t0 * h)) (tN t0 * 2 ^ h)) as [Hle|Hgt].
+    - rewrite <- ET in Hno. rewrite (Hno Hle) in HH. cbn in HH. lia.
+    - rewrite <- ET in Hyes. apply Hyes. lia. }
+  assert (EL : tL T = tL t0) by (rewrite HTeq; reflexivity).
+  assert (EN : tN T = tN t0) by (rewrite HTeq; reflexivity).
+  assert (EH : tH T = h) by (rewrite HTeq; reflexivity).
+  rewrite EH in *.
+  exists T, d, c, jb, nb. cbn [fst snd].
+  assert (Hnode : NodeAt R N lv c hh).
+  { pose proof (Blocks_fold_node_in node_hash 0 N bs HB hs R lo_lt_hi) as HF.
+    assert (Hlenhs : length hs = length bs).
+    { rewrite <- (Forall2_length' _ _ _ Hhs), combine_length, <- (Forall2_length' _ _ _ Hsto).
+      unfold stx, sub_tree_indexes. rewrite map_length. lia. }
+    specialize (HF Hlenhs Hfold).
+    destruct (Forall2_nth _ _ _ _ _ HF Hb) as [hh' [Hhh' Hn]]. rewrite Hhh in Hhh'. injection Hhh' as <-.
+    cbn [fst snd] in Hn. subst lo. rewrite Z.div_mul in Hn by lia.
+    split; [lia|]. split; [lia|exact Hn]. }
+  repeat (split; [first [assumption | lia] |]).
+  split; [rewrite EL, EN; exact HTeq|].
+  repeat (split; [first [assumption | lia] |]). exact Hld.
+Qed.
+
+Lemma stx_tiles_auth q T d :
+  (q < length tiles1)%nat -> nth_error tiles1 q = Some T -> nth_error data q = Some d ->
+  tile_auth R N T d.
+Proof.
+  intros Hq HT Hd.
+  (* the witness block *)
+  destruct (In_nth_error _ _ (Hcov q Hq)) as [iw Hiw].
+  assert (Hlens : length sto = length bs).
+  { rewrite <- (Forall2_length' _ _ _ Hsto). unfold stx, sub_tree_indexes. apply map_length. }
+  assert (Hiwlt : (iw < length bs)%nat) by (rewrite <- Hlens; apply nth_error_Some; congruence).
+  destruct (nth_error bs iw) as [[lvw low]|] eqn:Hbw; [|apply nth_error_None in Hbw; lia].
+  destruct (block_facts iw _ Hbw) as [qw [hw [Hqw Hfw]]]. rewrite Hiw in Hqw. injection Hqw as <-.
+  destruct Hfw as [Tw [dw [ow [jw [nw [HTw [Hdw [Hlvw [How [Elow [Hh [HLw [HNw [ETw [Elvw [Hjw [Hnw [HWw1 [Ecw [Ehw [Hnodew Hlenw]]]]]]]]]]]]]]]]]]]]].
+  cbn [fst snd] in *.
+  rewrite HT in HTw. injection HTw as <-. rewrite Hd in Hdw. injection Hdw as <-.
+  set (L := tL T) in *. set (tn := tN T) in *.
+  assert (EH : tH T = h) by (rewrite ETw; reflexivity).
+  assert (EW : tW T = Z.min (2 ^ h) (N / 2 ^ (L * h) - tn * 2 ^ h)) by (rewrite ETw; reflexivity).
+  pose proof (pow2_pos h ltac:(lia)) as Hph.
+  unfold tile_auth. rewrite EH. fold L. fold tn.
+  do 5 (split; [first [assumption | lia] |]).
+  intros j' s Hj' Hs.
+  set (zj := Z.of_nat j') in *. set (zs := Z.of_nat s) in *.
+  destruct (group_in_tree h L tn (tW T) N zj zs ltac:(lia) HLw HNw ltac:(lia) ltac:(lia) ltac:(lia) Hs ltac:(lia))
+    as [Ha0 [Ea Hatree]].
+  set (lam := L * h + zj) in *. set (a := tn * 2 ^ (h - zj) + zs) in *.
+  assert (Hlam0 : 0 <= lam) by (unfold lam; nia).
+  pose proof (pow2_pos lam Hlam0) as Hplam.
+  destruct (Blocks_cover 0 N bs lam a HB Hlam0 ltac:(nia) Hatree) as [lv' [lo' [Hin' [Hll [Hlo' Hhi']]]]].
+  destruct (In_nth_error _ _ Hin') as [i' Hi'].
+  destruct (block_facts i' _ Hi') as [q' [h' [Hq' Hf']]].
+  destruct Hf' as [T' [d' [o' [jb [nb [HT' [Hd' [Hlv' [Ho' [Elo' [_ [HL' [HN' [ET' [Elv' [Hjb [Hnb [HW'1 [Ec' [Eh' [Hnode' Hlen']]]]]]]]]]]]]]]]]]]]].
+  cbn [fst snd] in *.
+  assert (HinW : In (lvw, low) bs) by (eapply nth_error_In; exact Hbw).
+  pose proof (Blocks_disjoint 0 N bs lvw low lv' lo' HB HinW Hin') as Hdis.
+  assert (EW' : tW T' <= 2 ^ h) by (rewrite ET'; cbn [tW]; lia).
+  destruct (same_tile_arith h L tn zj zs a lam lvw low ow (Z.of_nat jw) (Z.of_nat nw)
+              lv' lo' o' (tL T') (tN T') (Z.of_nat jb) (Z.of_nat nb))
+    as [EL' [EN' [Hjj [Hlo2 Hhi2]]]]; try assumption; try lia; try reflexivity.
+  (* same tile, hence same position and same data *)
+  assert (ETT : T' = T) by (rewrite ET', ETw, EL', EN'; reflexivity).
+  subst T'.
+  assert (q' = q) by (eapply ord_full_unique; eassumption). subst q'.
+  rewrite Hd in Hd'. injection Hd' as <-.
+  (* descend inside the covering block *)
+  assert (Hjn : (j' <= jb)%nat) by lia.
+  set (s2 := (s - nb * 2 ^ (jb - j'))%nat).
+  assert (Hp2 : Z.of_nat (2 ^ (jb - j')) = 2 ^ (Z.of_nat jb - zj)).
+  { rewrite pow2_nat_Z. f_equal. unfold zj. lia. }
+  assert (Hs2 : (nb * 2 ^ (jb - j') <= s)%nat) by nia.
+  assert (Hs2lt : (s2 < 2 ^ (jb - j'))%nat) by (unfold s2; nia).
+  assert (Hdd : length (block d jb nb) = (32 * 2 ^ jb)%nat).
+  { apply block_length. unfold len in Hlen'. pose proof (pow2_nat_Z jb). nia. }
+  pose proof (mtree_blocks node_hash R N (L * h) jb (block d jb nb) o' ltac:(nia) Hdd) as HM.
+  rewrite <- Elv', <- Eh' in HM. specialize (HM Hnode' j' s2 Hjn Hs2lt).
+  rewrite block_block in HM by assumption.
+  replace (nb * 2 ^ (jb - j') + s2)%nat with s in HM by (unfold s2; lia).
+  replace (Z.of_nat (jb - j')) with (Z.of_nat jb - zj) in HM by (unfold zj; lia).
+  replace (o' * 2 ^ (Z.of_nat jb - zj) + Z.of_nat s2) with a in HM; [exact HM|].
+  (* coordinates *)
+  unfold a, s2. rewrite Nat2Z.inj_sub, Nat2Z.inj_mul, Hp2 by lia. fold zs.
+  pose proof (pow2_pos (Z.of_nat jb - zj) ltac:(lia)) as Hpd.
+  pose proof (pow2_pos zj ltac:(lia)) as Hpz.
+  pose proof (pow2_pos (Z.of_nat jb) ltac:(lia)) as Hpjb.
+  assert (E1 : 2 ^ Z.of_nat jb = 2 ^ (Z.of_nat jb - zj) * 2 ^ zj) by (apply pow2_split; lia).
+  assert (E2 : 2 ^ h = 2 ^ (h - zj) * 2 ^ zj) by (apply pow2_split; lia).
+  rewrite EN' in Ec'. rewrite E1, E2 in Ec'.
+  pose proof (pow2_pos (h - zj) ltac:(lia)).
+  nia.
+Qed.
+
+End Phase1.
+
+End_of_part_three_marker.
